@@ -255,7 +255,7 @@ class Gen:
             group = []
             lt = self.avail_types(lower) or [self.base[0]]
             for k in range(nrel):
-                ar = ch.weighted([(5, 2), (3, 1), (2, 3)] + ([(1, 0)] if (feat.nullary and not rec) else []))
+                ar = ch.weighted([(5, 2), (3, 1), (2, 3)] + ([(1, 0)] if (feat.nullary and (not rec or (nrel == 2 and k == 1))) else []))
                 types = [self.pick_type(prefer=lt) for _ in range(ar)]
                 r = Rel("r%d" % idx, types, "idb")
                 idx += 1
